@@ -8,6 +8,7 @@ import (
 	"context"
 	"errors"
 	"fmt"
+	"net"
 	"net/http/httptest"
 	"sync"
 	"sync/atomic"
@@ -150,7 +151,12 @@ type Rig struct {
 	Clients []*RigClient
 	tokSeq  int64
 	name    string
+
+	srvCancel context.CancelFunc // cancels the base context of every server-side connection
 }
+
+// CancelServer cancels the context every server-side connection was started with.
+func (r *Rig) CancelServer() { r.srvCancel() }
 
 var rigSeq int64
 
@@ -169,7 +175,11 @@ func NewRig(o RigOpts) (*Rig, error) {
 	}
 	r.RPC = jsonrpc.NewServer(sopts...)
 	r.RPC.Register("Tok", r.API)
-	r.Srv = httptest.NewServer(r.RPC)
+	r.Srv = httptest.NewUnstartedServer(r.RPC)
+	var base context.Context
+	base, r.srvCancel = context.WithCancel(context.Background())
+	r.Srv.Config.BaseContext = func(net.Listener) context.Context { return base }
+	r.Srv.Start()
 	if !o.NoProxy {
 		p, err := NewProxy(r.Srv.Listener.Addr().String())
 		if err != nil {
